@@ -1676,7 +1676,7 @@ func (e *Engine) execLoop(st *state, fr *frame, h, prev *ssa.BasicBlock, body ma
 		exits = rest
 	}
 	var inv *Val
-	if lc.ctrVar != nil && lc.ctrBound != nil && (bounded == "counted" || bounded == "counted-down") {
+	if lc.ctrVar != nil && lc.ctrBound != nil && (bounded == "counted" || bounded == "counted-down" || bounded == "range") {
 		// the tested expression satisfies the loop test whenever the body runs (header-tested: the test precedes the
 		// body; rotated: the guard before the first iteration, the latch test before every later one)
 		tested := affToVal(affOf(lc.ctrVar).Add(affConst(lc.ctrOff), 1))
